@@ -675,7 +675,7 @@ pub fn memops(out: &mut Out, seed: u64, thorough: bool, scn: Option<&str>) {
                 }
                 _ => continue,
             }
-            let line = o.boolean("content_ok", content_ok).raw("mem", &project_mem(&mem, &ids)).end();
+            let line = o.boolean("content_ok", content_ok).raw("mem", &project_simple(&mem, &ids)).end();
             out.emit(&line);
         }
     }
